@@ -130,3 +130,53 @@ def map_term(ex, x, body, seq):
         z3.ForAll([j], z3.Implies(z3.And(0 <= j, j < z3.Length(seq)), res[j] == elem)),
     ]
     return res, axioms
+
+
+def _occurs(x, t) -> bool:
+    seen = set()
+    stack = [t]
+    while stack:
+        u = stack.pop()
+        if u.get_id() in seen:
+            continue
+        seen.add(u.get_id())
+        if u.eq(x):
+            return True
+        if z3.is_quantifier(u):
+            stack.append(u.body())
+        elif z3.is_app(u):
+            stack.extend(u.children())
+    return False
+
+
+def gather_shape(x, body):
+    """If body is exactly M[x] for a map M not mentioning x, return M."""
+    if z3.is_select(body) and body.arg(1).eq(x) and body.arg(0).sort() == S.MAPV and not _occurs(x, body.arg(0)):
+        return body.arg(0)
+    return None
+
+
+def gather_term(M, seq):
+    """[M[k] for k in seq] as the ONE first-order function gather(M, seq), with its
+    definition (length, elements) and the lemma that an update of M at a key that does
+    not occur in seq leaves the gathered list unchanged (a consequence of the
+    definition by extensionality, supplied because the solver does not derive sequence
+    equalities from pointwise facts)."""
+    res = S.gather(M, seq)
+    j = z3.Int("j!map")
+    axioms = [
+        z3.Length(res) == z3.Length(seq),
+        z3.ForAll([j], z3.Implies(z3.And(0 <= j, j < z3.Length(seq)), res[j] == z3.Select(M, seq[j]))),
+    ]
+    return res, axioms
+
+
+def gather_frame_lemma():
+    M = z3.Const("M!gf", S.MAPV)
+    k, v = z3.Const("k!gf", S.Val), z3.Const("v!gf", S.Val)
+    s_ = z3.Const("s!gf", S.SEQV)
+    return z3.ForAll(
+        [M, k, v, s_],
+        z3.Implies(z3.Not(S.mem(s_, k)), S.gather(z3.Store(M, k, v), s_) == S.gather(M, s_)),
+        patterns=[S.gather(z3.Store(M, k, v), s_)],
+    )
